@@ -15,6 +15,9 @@ import (
 	"strings"
 )
 
+// XRaw is written verbatim where a value is expected.
+type XRaw []byte
+
 // XStyle renders values; all choices come from Rng.  Plain switches the
 // syntactic noise off.
 type XStyle struct {
@@ -232,6 +235,8 @@ func (s *XStyle) Render(b *bytes.Buffer, v any) {
 		s.renderName(b, string(x))
 	case XString:
 		s.renderString(b, x)
+	case XRaw:
+		b.Write(x) // verbatim bytes (deliberately malformed syntax)
 	case XRef:
 		fmt.Fprintf(b, "%d%s%d%sR", x.Num, s.WS(), x.Gen, s.WS())
 	case XArray:
@@ -491,6 +496,9 @@ func RenderHistory(r *Rand, h *XHistory, plain bool, encrypt func(num uint32, ge
 					continue
 				}
 				if _, isRef := a.Value.(XRef); isRef {
+					continue
+				}
+				if _, isRaw := a.Value.(XRaw); isRaw {
 					continue
 				}
 				if _, isName := a.Value.(XName); isName {
